@@ -165,6 +165,73 @@ def writer_events(run):
     return ev
 
 
+def reconnect_scenario(seed, policy, n1, n2, thr):
+    """One Connection object, two sessions: packets are queued, the connection is dropped at once (whatever was still
+    queued is abandoned with it), the user connects again and queues other packets before a flushing disconnect.
+    Returns (run, per-TCP-connection list of (frame kind, tag))."""
+    from minecraft.networking.packets import serverbound
+    prof = Profile(VERSION)
+    run = Run(policy=policy, seed=seed)
+
+    def factory(idx, sess):
+        sc = TracingScript(run, prof, [])
+        steps = [('expect', 2)]
+        if thr is not None:
+            steps += [('send', prof.login_compress(thr)), ('compress', thr)]
+        sc.steps = steps + [('send', prof.login_success(bytes(range(16)), 'verif')), ('call', lambda s: setattr(s, 'state', 'play'))]
+        return sc
+    run.serve(factory)
+    res = {}
+
+    def scenario(run):
+        c = run.make_connection(allowed_versions={VERSION})
+        res['connect1'] = api(run, c, 'connect')
+        run.settle()
+        for k in range(n1):
+            api(run, c, 'write', packet=serverbound.play.PluginMessagePacket(channel='w:%d' % (k + 1), data=b'first session'))
+        res['disc_now'] = api(run, c, 'disc_now')
+        res['connect2'] = api(run, c, 'connect')
+        run.settle()
+        for k in range(n2):
+            api(run, c, 'write', packet=serverbound.play.PluginMessagePacket(channel='w:%d' % (k + 101), data=b'second session'))
+        res['disc'] = api(run, c, 'disc')
+    run.go(scenario)
+    out = []
+    for sc in run.scripts:
+        frames = []
+        for i, fr in enumerate(sc.de.frames):
+            kind = sc.parsed[i]['t'] if i < len(sc.parsed) else '?'
+            tag = 0
+            try:
+                chan = P.Reader(fr['body']).string()
+                tag = int(chan[2:]) if chan.startswith('w:') else 0
+            except Exception:       # noqa
+                pass
+            frames.append((kind, tag))
+        out.append({'frames': frames, 'clean': not sc.de.errors and len(sc.de.buf) == 0})
+    return run, res, out
+
+
+def judge_reconnect(n1, n2, res, out, outcome):
+    if outcome not in ('done', 'quiescent'):
+        return 'the execution ended as %s' % outcome
+    if any(res.get(k) != 'ok' for k in ('connect1', 'disc_now', 'connect2', 'disc')):
+        return 'the calls returned %r' % (res,)
+    if len(out) != 2:
+        return '%d TCP connections were made, expected 2' % len(out)
+    a, b = out
+    if not (a['clean'] and b['clean']):
+        return 'a stream does not decode'
+    t1 = [t for (k, t) in a['frames'][2:]]
+    if [k for (k, t) in a['frames'][:2]] != ['handshake', 'login_start'] or t1 != list(range(1, len(t1) + 1)) or len(t1) > n1:
+        return 'the first session carries %r: not a handshake, a login start and a prefix of the packets queued in it' % (a['frames'],)
+    t2 = [t for (k, t) in b['frames'][2:]]
+    if [k for (k, t) in b['frames'][:2]] != ['handshake', 'login_start'] or t2 != list(range(101, 101 + n2)):
+        return ('the second session carries %r: expected a handshake, a login start and exactly the %d packets queued in it '
+                '(nothing that was handed to the first session)' % (b['frames'][:12], n2))
+    return None
+
+
 def random_spec(rng, nusers):
     users = {}
     pid = 0
@@ -277,6 +344,20 @@ def run(chk):
         traces.append({'ev': writer_events(run_), 'spec': {'users': {u: len(p) for u, p in users.items()}, 'burst': True}, 'seed': 'burst%d' % j})
         if run_.outcome not in ('done', 'quiescent'):
             chk.violation('writer:outcome:%s' % run_.outcome, 'burst scenario %d+%d queued writes ended as %s' % (n1, n2, run_.outcome), {'n': [n1, n2]})
+    # ---- the same Connection used for a second session after an immediate disconnect left packets queued: those packets
+    #      belonged to the first session - the second carries its own, after its own handshake
+    for j in range(40 if quick else 600):
+        r_ = random.Random(chk.seed * 8191 + j)
+        n1, n2, thr_ = r_.choice([1, 2, 5, 40]), r_.choice([0, 1, 3]), r_.choice([None, None, 0, 64])
+        pol = vsched.SequentialPolicy() if j % 3 == 0 else vsched.RandomPolicy(chk.seed * 61 + j, switch_prob=r_.choice([0.05, 0.3, 0.7]))
+        run_, res_, out_ = reconnect_scenario(chk.seed * 67 + j, pol, n1, n2, thr_)
+        chk.traces += 1
+        chk.case(('reconnect', n1, n2, thr_, j))
+        why_ = judge_reconnect(n1, n2, res_, out_, run_.outcome)
+        if why_:
+            chk.violation('writer:second-session', '%d packets queued, immediate disconnect, connect(), %d packets queued, disconnect (threshold %r, '
+                          'schedule %d): %s' % (n1, n2, thr_, j, why_), {'n1': n1, 'n2': n2, 'thr': thr_, 'j': j})
+    chk.extra['second_session_executions'] = 40 if quick else 600
     # ---- validate
     shards = 8
     per = (len(traces) + shards - 1) // shards
